@@ -74,6 +74,7 @@ struct C06 : public Driver {
             SSCfg sc; sc.on = pickFeatures(g, allowed, 3, 9);
             if (g.chance(1, 2)) { sc.on.insert("key"); sc.on.insert("num-any"); } if (g.chance(1, 2)) sc.on.insert("paramuse"); if (g.chance(1, 2)) sc.on.insert("extfn");
             if (g.chance(1, 2)) sc.on.insert("gate"); if (g.chance(1, 3)) sc.on.insert("num-gate"); if (g.chance(1, 2)) sc.on.insert("sortlang"); if (g.chance(1, 3)) sc.on.insert("lazyvar");
+            sc.dfVariant = (int)g.below(3); if (g.chance(1, 2)) sc.on.insert("fmtnum-df"); if (g.chance(1, 2)) sc.on.insert("sort-gate"); if (g.chance(1, 4)) sc.on.insert("bignum-alpha");
             { static const std::vector<std::string> langs = { "de", "de", "fr", "en" }; static const std::vector<std::string> cases = { "", "upper-first", "lower-first" }; sc.sortLang = g.pick(langs); sc.sortCase = g.pick(cases); }
             sc.useImport = g.chance(1, 3); sc.useInclude = g.chance(1, 4); sc.docFn = g.chance(1, 3); sc.stripSpace = g.chance(1, 4);
             static const std::vector<std::string> encs = { "UTF-8", "UTF-8", "UTF-16", "ISO-8859-1", "US-ASCII" }; sc.encoding = g.pick(encs);
@@ -104,7 +105,7 @@ struct C06 : public Driver {
                 else if (f == 5) { o["fnFailAt"] = (long long)(1 + gh.below(30)); }
             }
             else if (r < 29) { Json& o = op("param"); static const std::vector<std::string> nm = { "P1", "P2", "Q" }; o["name"] = gh.pick(nm); unsigned k = (unsigned)gh.below(4);
-                if (k == 0) { o["kind"] = "number"; o["value"] = std::to_string(gh.range(-5, 500)); } else if (k == 1) { o["kind"] = "string"; unsigned q = (unsigned)gh.below(6); o["value"] = q == 0 ? std::string("abort") : q == 1 ? std::string("badkey") : "s" + std::to_string(gh.below(100)); if (q < 2) o["name"] = "P1"; }
+                if (k == 0) { o["kind"] = "number"; o["value"] = std::to_string(gh.range(-5, 500)); } else if (k == 1) { o["kind"] = "string"; unsigned q = (unsigned)gh.below(8); o["value"] = q == 0 ? std::string("abort") : q == 1 ? std::string("badkey") : q < 4 ? "n" + std::to_string(gh.below(12)) : "s" + std::to_string(gh.below(100)); if (q < 4) o["name"] = "P1"; }
                 else if (k == 2) { o["kind"] = "expr"; static const std::vector<std::string> ex = { "1 + 2", "'lit'", "concat('a','b')", "7 div 2", "true()" }; o["value"] = gh.pick(ex); }
                 else { o["kind"] = "expr"; o["value"] = "((bad"; } }
             else if (r < 31) op("clear-params");
